@@ -2,9 +2,10 @@
 """Second reference for property C12: CPython's own % operator.
 
 Protocol: JSON lines on stdin, one JSON line on stdout per input line, same order.
-  input : {"f": <format string>, "m": 0|1, "v": <encoded values>}
+  input : {"f": <format string>, "m": 0|1, "v": <encoded values>, "g": <bool, optional>}
           m = 0: "v" is a list, the operator is applied to tuple(values)
           m = 1: "v" is an encoded object, the operator is applied to the dict
+          g = true: resource guard, the caller saw a `*` fed with a number > 200000: answer "ResourceGuard"
   values: {"n": "<decimal integer>"} -> int      {"d": "<repr of a double>"} -> float
           {"s": "<text>"} -> str                 null / true / false -> None / True / False
           {"a": [..]} -> list                    {"o": [[key, value], ..]} -> dict
@@ -32,6 +33,12 @@ def dec(v):
 
 
 def main():
+    try:  # second line of defence behind the caller's resource guard: a runaway width ends in MemoryError
+        import resource
+
+        resource.setrlimit(resource.RLIMIT_AS, (2 << 30, 2 << 30))
+    except Exception:
+        pass
     sys.stdin.reconfigure(encoding="utf-8")
     out = sys.stdout  # output is pure ASCII (json.dumps escapes everything else)
     for line in sys.stdin:
